@@ -835,6 +835,29 @@ impl<const M: usize> Exec<M> {
     }
 
     /// register a fresh block and run the C01/C04 placement oracles on it
+    /// The whole `NonNull<[u8]>` an `Allocator` method returned (it may be longer than what was asked for) is memory the caller now
+    /// owns: inside a held chunk, outside its bookkeeping, and disjoint from every other live block (`skip`: a block that is live
+    /// in the harness's books only because the call that just replaced it has not been booked yet).
+    fn check_extent(&mut self, ptr: usize, len: usize, skip: usize) {
+        if len == 0 {
+            return;
+        }
+        let ov = self.footer_overhead.unwrap_or(0);
+        let inside = self.held.iter().any(|(a, s, _)| *a <= ptr && ptr + len <= a + s - ov.min(*s));
+        if !inside {
+            self.fail("C12", "returned-slice-outside-arena", format!("ptr={} len={} held={:?}", hex(ptr), len, self.held));
+            self.fail("C01", "out-of-bounds", format!("ptr={} size={} (the slice an Allocator method returned)", hex(ptr), len));
+        }
+        for (i, b) in self.blocks.iter().enumerate() {
+            if i != skip && b.live && b.size > 0 && ptr < b.ptr + b.size && b.ptr < ptr + len {
+                let d = format!("returned={}+{} live#{}={}+{}", hex(ptr), len, i, hex(b.ptr), b.size);
+                self.fail("C12", "returned-slice-overlaps-live-block", d.clone());
+                self.fail("C01", "overlap", d);
+                break;
+            }
+        }
+    }
+
     fn add_block(&mut self, ptr: usize, size: usize, align: usize, raw: bool, expected: Vec<u8>) -> usize {
         if ptr == 0 {
             self.fail("C01", "null-pointer", format!("size={} align={}", size, align));
@@ -1677,6 +1700,7 @@ impl<const M: usize> Exec<M> {
                         if p.len() < *sz {
                             self.fail("C12", "short-block", format!("len={} want={}", p.len(), sz));
                         }
+                        self.check_extent(p.as_ptr() as *mut u8 as usize, p.len(), usize::MAX);
                         let id = self.add_block(p.as_ptr() as *mut u8 as usize, *sz, *al, true, vec![]);
                         self.fill_block(id);
                         write!(extra, " id={}", id).ok();
@@ -1724,6 +1748,7 @@ impl<const M: usize> Exec<M> {
                             self.fail("C12", "short-block", format!("len={} want={}", p.len(), sz));
                         }
                         self.blocks[*id].live = false;
+                        self.check_extent(p.as_ptr() as *mut u8 as usize, p.len(), usize::MAX);
                         // prefix must be preserved; tail zero for grow_zeroed
                         let cur = unsafe { std::slice::from_raw_parts(np as *const u8, *sz) };
                         if cur[..blk.size] != blk.expected[..] {
@@ -1766,6 +1791,7 @@ impl<const M: usize> Exec<M> {
                             self.fail("C12", "short-block", format!("len={} want={}", p.len(), sz));
                         }
                         self.blocks[*id].live = false;
+                        self.check_extent(p.as_ptr() as *mut u8 as usize, p.len(), usize::MAX);
                         let cur = unsafe { std::slice::from_raw_parts(np as *const u8, *sz) };
                         if cur[..] != blk.expected[..*sz] {
                             let off = cur.iter().zip(blk.expected.iter()).position(|(x, y)| x != y).unwrap_or(0);
